@@ -8,7 +8,10 @@
    The log must be a behaviour of JUnit and the projected document must agree with the document the
    specification writes - in the terms of the property: counts, order, markers, texts after unescaping, and a
    file name that satisfies FileNameOK.  The specification's own XML decoder is cross-checked against expat
-   on every raw value. *)
+   on every raw value.
+   "skip" = a test the registry counted and the filter kept from running.  At the end of a group none of whose tests
+   ran the reporter may write nothing, or one well-formed file whose name is not a name of the file of a group that
+   ran earlier in the run (EmptyObsOK); nothing else is asked of that file. *)
 EXTENDS JUnit, Json, IOUtils
 VARIABLE l
 tvars == <<vars, l>>
@@ -31,14 +34,22 @@ DocObsOK(d, x) ==              \* observed document d, document x written by the
     /\ d.sysout = x.sysout
     /\ \A k \in 1..Len(d.raw) : XmlSafe(d.raw[k].ctx, d.raw[k].w) /\ XmlDec(d.raw[k].ctx, d.raw[k].w) = d.raw[k].dec
 
+RawOK(d) == \A k \in 1..Len(d.raw) : XmlSafe(d.raw[k].ctx, d.raw[k].w) /\ XmlDec(d.raw[k].ctx, d.raw[k].w) = d.raw[k].dec
+EmptyObsOK(d) ==               \* what may be observed at the end of a group none of whose tests ran
+    \/ E.nfiles = 0
+    \/ /\ E.nfiles = 1 /\ d.wellformed /\ d.closed /\ RawOK(d)
+       /\ \A g \in 1..Len(done) : Ran(g) => ~FileNameOK(d.fname, done[g].pkg, done[g].grp)
+
 TInit == Init /\ l = 1
 TNext == \/ Is("start") /\ TestsStarted(E.ri, E.pkg) /\ NoFile
          \/ Is("group") /\ GroupStarted(E.g) /\ NoFile
          \/ Is("test") /\ TestStarted(E.n, E.file, E.line, E.kind) /\ NoFile
          \/ Is("print") /\ PrintText(E.txt) /\ NoFile
          \/ Is("fail") /\ Failure(E.file, E.line, E.msg) /\ NoFile
+         \/ Is("skip") /\ Skip /\ NoFile
          \/ Is("endtest") /\ TestEnded /\ NoFile
          \/ Is("endgroup") /\ (\E keep \in BOOLEAN : GroupEnded(keep)) /\ DocObsOK(E.doc, files'[Len(files')])
+         \/ Is("endgroup") /\ (\E keep \in BOOLEAN : EmptyGroupEnded(E.nfiles > 0, keep)) /\ EmptyObsOK(E.doc)
          \/ Is("end") /\ TestsEnded /\ NoFile
 TReset == /\ Is("reset") /\ phase' = "idle" /\ runIgn' = FALSE /\ pkg' = <<>> /\ grp' = <<>>
           /\ rep' = NoRep @@ [stdout |-> <<>>] /\ cur' = <<>> /\ printed' = [group |-> <<>>, all |-> <<>>]
@@ -48,7 +59,7 @@ Accepted == TLCGet("stats").diameter - 1 = Len(Tr)
 \* Every state of the observed execution is checked and a call writes at most one document, so looking at the last
 \* document in every state examines every document (and keeps validation linear in the length of the run).
 TInv == LET k == Len(files) IN
-        /\ OneFilePerGroup /\ SuiteCountsTrueFrom(k) /\ CasesFaithfulFrom(k) /\ OutputFaithfulFrom(k)
+        /\ OneFilePerGroupFrom(Len(done)) /\ NoOverwriteFrom(k) /\ SuiteCountsTrueFrom(k) /\ CasesFaithfulFrom(k) /\ OutputFaithfulFrom(k)
         /\ WellFormedRoundTripFrom(k) /\ FileNamesOKFrom(k) /\ BookkeepingOK
 
 \* diagnostics: the same walk with the observations unbound, printing the document the specification writes
@@ -57,12 +68,13 @@ PNext == \/ Is("start") /\ TestsStarted(E.ri, E.pkg)
          \/ Is("test") /\ TestStarted(E.n, E.file, E.line, E.kind)
          \/ Is("print") /\ PrintText(E.txt)
          \/ Is("fail") /\ Failure(E.file, E.line, E.msg)
+         \/ Is("skip") /\ Skip
          \/ Is("endtest") /\ TestEnded
-         \/ Is("endgroup") /\ GroupEnded(TRUE)
+         \/ Is("endgroup") /\ (GroupEnded(TRUE) \/ EmptyGroupEnded(TRUE, TRUE))
          \/ Is("end") /\ TestsEnded
 PSpec == TInit /\ [][PNext \/ TReset]_tvars
 LastDoc == IF files = <<>> THEN <<>> ELSE LET x == files[Len(files)] IN
-              <<[fname |-> x.fname, suite |-> x.suite, cases |-> x.cases, sysout |-> x.sysout]>>
+              <<[fname |-> x.fname, suite |-> x.suite, cases |-> x.cases, sysout |-> x.sysout, groupRan |-> RanDoc(Len(files))]>>
 Predict == (l > 1 /\ l - 1 >= atoi(IOEnv.FROM_LINE_N)) =>
               PrintT(<<"BEH", ToJson([line |-> l - 1, phase |-> phase, lastDocument |-> LastDoc])>>)
 =============================================================================
